@@ -1202,6 +1202,24 @@ def _isn(val1, val2) -> float:
     return 1.0
 
 
+def _complementary_distance(distance_true: float, distance_false: float) -> float:
+    """Make the false distance consistent with the outcome of the compared operation.
+
+    For partial orders (NaN, sets, user-defined operators) both or none of the original
+    operation and its complement may hold, but only the original decides the branch.
+
+    Args:
+        distance_true: the distance of the original operation
+        distance_false: the distance of the complementary operation
+
+    Returns:
+        The false distance, which is zero iff the true distance is not
+    """
+    if distance_true != 0.0:
+        return 0.0
+    return distance_false if distance_false != 0.0 else 1.0
+
+
 _P = ParamSpec("_P")
 
 
@@ -1387,6 +1405,7 @@ class ExecutionTracer(AbstractExecutionTracer):  # noqa: PLR0904
                     )
                 case _:
                     raise AssertionError("Unknown compare op")
+            distance_false = _complementary_distance(distance_true, distance_false)
             self._update_metrics(distance_false, distance_true, predicate)
 
     @_early_return
@@ -1434,6 +1453,7 @@ class ExecutionTracer(AbstractExecutionTracer):  # noqa: PLR0904
             value1 = tt.unwrap(value1)
             value2 = tt.unwrap(value2)
             distance_true, distance_false = _in(value1, value2), _nin(value1, value2)
+            distance_false = _complementary_distance(distance_true, distance_false)
             self._update_metrics(distance_false, distance_true, predicate)
 
     @_early_return
